@@ -75,14 +75,22 @@ namespace xsv
 
     // Enumerate the cartesian product of `lists` (one per input) -- every `stride`-th tuple starting at
     // `phase` -- packed n tuples per batch, `rotations` passes so a tuple visits several lane positions.
-    // imm values are looped outside.  Returns number of tuples visited (per width group and imm).
+    // imm values are looped outside.  Only slice `slice` of `nslices` of the tuple sequence is visited
+    // (heavy sweeps are split over the worker processes).  Nothing is materialised.
     inline uint64_t sweep_product(Context& cx, const OpDef& d, TypeId t, const Resolved& r, const std::vector<std::vector<uint64_t>>& lists,
-                                  uint64_t stride, uint64_t phase, int rotations, const std::vector<int64_t>& imms)
+                                  uint64_t stride, uint64_t phase, int rotations, const std::vector<int64_t>& imms, int slice = 0, int nslices = 1)
     {
         uint64_t total = 1;
         for (auto& l : lists)
             total *= l.size();
-        uint64_t visited = 0;
+        if (stride < 1)
+            stride = 1;
+        const uint64_t phase0 = stride > 1 ? phase % std::min(stride, total) : 0;
+        const uint64_t count = (total - phase0 + stride - 1) / stride;
+        const uint64_t jlo = count * (uint64_t)slice / (uint64_t)nslices, jhi = count * (uint64_t)(slice + 1) / (uint64_t)nslices;
+        const uint64_t cnt = jhi - jlo;
+        if (cnt == 0)
+            return 0;
         auto groups = by_lanes(r);
         std::string gname = d.name + ":" + kTypeNames[t];
         for (auto& g : groups)
@@ -91,18 +99,10 @@ namespace xsv
             const int rot = std::max(1, std::min(n, rotations));
             for (int64_t imm : imms)
             {
-                // the tuples of this pass, in order
-                std::vector<uint64_t> idx;
-                for (uint64_t i = phase % std::max<uint64_t>(1, std::min(stride, total)); i < total; i += stride)
-                    idx.push_back(i);
-                if (idx.empty())
-                    continue;
-                visited = idx.size();
                 for (int p = 0; p < rot; ++p)
                 {
-                    // rotation step chosen so that positions are spread: p * (n/rot)
                     const int shift = rot >= n ? p : p * (n / rot);
-                    for (size_t base = 0; base < idx.size(); base += n)
+                    for (uint64_t base = 0; base < cnt; base += n)
                     {
                         ElemCase c;
                         c.op = &d;
@@ -110,7 +110,7 @@ namespace xsv
                         c.imm = imm;
                         for (int l = 0; l < n; ++l)
                         {
-                            uint64_t ti = idx[(base + (size_t)((l + shift) % n)) % idx.size()];
+                            uint64_t ti = phase0 + (jlo + (base + (uint64_t)((l + shift) % n)) % cnt) * stride;
                             for (int i = d.arity - 1; i >= 0; --i)
                             {
                                 const auto& L = lists[i];
@@ -120,19 +120,25 @@ namespace xsv
                         }
                         if (g_case_filter)
                             g_case_filter(c);
-                        if (run_case(cx, c, g.second) && cx.has_violation(d.name + ":" + kTypeNames[t] + ":" + g.second.tg[0]->name) && cx.violations.size() >= 64)
-                            return visited;
+                        run_case(cx, c, g.second);
                         cx.st.per_group[gname]++;
                     }
                 }
             }
         }
-        return visited;
+        return cnt;
     }
 
     // arithmetic progression of lane bit patterns: start, start+stride, ... (count values), unary ops
-    inline void sweep_range(Context& cx, const OpDef& d, TypeId t, const Resolved& r, uint64_t start, uint64_t stride, uint64_t count)
+    inline void sweep_range(Context& cx, const OpDef& d, TypeId t, const Resolved& r, uint64_t start, uint64_t stride, uint64_t count, int slice = 0, int nslices = 1)
     {
+        {
+            const uint64_t lo = count * (uint64_t)slice / (uint64_t)nslices, hi = count * (uint64_t)(slice + 1) / (uint64_t)nslices;
+            start += lo * stride;
+            count = hi - lo;
+            if (count == 0)
+                return;
+        }
         auto groups = by_lanes(r);
         std::string gname = d.name + ":" + kTypeNames[t];
         const int eb = kTypeBytes[t];
@@ -183,6 +189,74 @@ namespace xsv
         return std::vector<uint64_t>(s.begin(), s.end());
     }
     inline std::vector<uint64_t> fp_unary_list(TypeId t) { return t == F32 ? fp_unary_list_t<float>() : fp_unary_list_t<double>(); }
+
+    // Operations whose inputs are all masks: every combination of k masks of n lanes when k*n <= limit bits,
+    // otherwise structured families (one-hot, all-but-one, runs, alternating with every phase).
+    inline void sweep_masks(Context& cx, const OpDef& d, TypeId t, const Resolved& r, int limit_bits)
+    {
+        auto groups = by_lanes(r);
+        const int k = d.arity;
+        std::string gname = d.name + ":" + kTypeNames[t];
+        for (auto& g : groups)
+        {
+            const int n = g.first;
+            std::vector<std::vector<uint64_t>> masks(k);
+            auto run = [&](const std::vector<uint64_t>& m) {
+                ElemCase c;
+                c.op = &d;
+                c.type = t;
+                for (int i = 0; i < k; ++i)
+                    for (int l = 0; l < n; ++l)
+                        c.in[i][l] = (m[i] >> l) & 1;
+                run_case(cx, c, g.second);
+                cx.st.per_group[gname]++;
+            };
+            if (k * n <= limit_bits)
+            {
+                const uint64_t total = 1ull << (k * n);
+                for (uint64_t v = 0; v < total; ++v)
+                {
+                    std::vector<uint64_t> m(k);
+                    for (int i = 0; i < k; ++i)
+                        m[i] = (v >> (i * n)) & ((1ull << n) - 1);
+                    run(m);
+                }
+                cx.st.cls("mask_spaces_enumerated_exhaustively");
+            }
+            else
+            {
+                std::vector<uint64_t> fam;
+                const uint64_t full = n >= 64 ? ~0ull : ((1ull << n) - 1);
+                fam.push_back(0);
+                fam.push_back(full);
+                for (int l = 0; l < n; ++l)
+                {
+                    fam.push_back(1ull << l);
+                    fam.push_back(full & ~(1ull << l));
+                    fam.push_back(full & ((l == 63 ? 0 : (~0ull << (l + 1))))); // run of ones above l
+                    fam.push_back((1ull << l) - 1); // run of ones below l
+                }
+                for (int period : { 2, 3, 4, 8, 16 })
+                    for (int ph = 0; ph < period; ++ph)
+                    {
+                        uint64_t m = 0;
+                        for (int l = 0; l < n; ++l)
+                            if ((l + ph) % period == 0)
+                                m |= 1ull << l;
+                        fam.push_back(m);
+                        fam.push_back(full & ~m);
+                    }
+                if (k == 1)
+                    for (uint64_t a : fam)
+                        run({ a });
+                else
+                    for (size_t i = 0; i < fam.size(); ++i)
+                        for (size_t j = 0; j < fam.size(); j += (fam.size() > 64 ? 3 : 1))
+                            run({ fam[i], fam[(j + i) % fam.size()] });
+                cx.st.cls("mask_spaces_structured_families");
+            }
+        }
+    }
 
     inline std::vector<int64_t> imm_values(const OpDef& d, TypeId t)
     {
